@@ -129,7 +129,13 @@ class PageFeatureProcessor:
                     else document.rtf_body.border_last
                 )
 
-                if not (has_footnote_on_page or has_source_on_page):
+                footnote_table_on_page = has_footnote_on_page and getattr(
+                    document.rtf_footnote, "as_table", True
+                )
+                source_table_on_page = has_source_on_page and getattr(
+                    document.rtf_source, "as_table", False
+                )
+                if not (footnote_table_on_page or source_table_on_page):
                     # Apply to last data row
                     for col_idx in range(page_df_width):
                         page_attrs = self._apply_border_to_cell(
